@@ -204,7 +204,7 @@ func ruleR09_2(w *World, r *Report) {
 // R09.3 rollback = restore + replay
 func ruleR09_3(w *World, r *Report) {
 	u := w.Client()
-	r.Rule("R09.3", "Rollback restores meta and snapshot from the rollback copies, then replays every operation committed since, propagating every error, and finally refreshes the rollback copies", 3)
+	r.Rule("R09.3", "Rollback restores meta and snapshot from the rollback copies, then replays every operation committed since, propagating every error, and finally refreshes the rollback copies from the replayed state and forgets the replayed operations", 6)
 	fn := u.Fn(pDatatypes, "TransactionDatatype", "Rollback")
 	if fn == nil {
 		r.Lost("TransactionDatatype.Rollback")
@@ -241,6 +241,39 @@ func ruleR09_3(w *World, r *Report) {
 		}
 	}
 	r.Check(bad == "", "TransactionDatatype.Rollback/errors propagate", u.Pos(fn.Pos()), "every error returns", "the error of "+bad+" is not propagated")
+	// the new rollback point is the state after the replay, and the replayed operations are
+	// forgotten with it (they are part of the new point)
+	okAfter := reachableFrom(replay, get) && !reachableFrom(get, replay)
+	r.Check(okAfter, "TransactionDatatype.Rollback/refresh after replay", u.Pos(get.Pos()), "GetMetaAndSnapshot after the replay loop", "the new rollback point is captured before the committed operations have been replayed: the next rollback loses them")
+	okStore := true
+	for i, f := range []string{".rollbackMeta", ".rollbackSnapshot"} {
+		found := false
+		for _, st := range storesTo(fn, f) {
+			if ex, ok := st.Val.(*ssa.Extract); ok && ex.Tuple == ssa.Value(get) && ex.Index == i {
+				found = true
+			}
+		}
+		okStore = okStore && found
+	}
+	r.Check(okStore, "TransactionDatatype.Rollback/refresh stored", u.Pos(get.Pos()), "(rollbackMeta, rollbackSnapshot) = GetMetaAndSnapshot()", "the captured meta and snapshot are not stored as the new rollback copies")
+	okClear := false
+	for _, st := range storesTo(fn, ".rollbackOps") {
+		c, isC := st.Val.(*ssa.Const)
+		if !isC || c.Value != nil {
+			continue
+		}
+		// cleared after the capture, on every successful return
+		good := instrDominates(get, st)
+		forEachInstr(fn, func(in ssa.Instruction) {
+			if ret, ok := in.(*ssa.Return); ok && len(ret.Results) == 1 {
+				if k, isK := ret.Results[0].(*ssa.Const); isK && k.Value == nil && !instrDominates(st, ret) {
+					good = false
+				}
+			}
+		})
+		okClear = okClear || good
+	}
+	r.Check(okClear, "TransactionDatatype.Rollback/replayed operations forgotten", u.Pos(fn.Pos()), "rollbackOps = nil after the capture", "rollbackOps is not cleared once the new rollback point contains them: the next rollback replays them a second time")
 }
 
 var txAbs = rewriter(`operations\.ModelToOperation\([^)]*\)\.\(\*operations\.TransactionOperation\)(#0)?\.GetNumOfOps\(\)`, "N", `len\(\$1\)`, "LEN", `φi`, "I")
